@@ -147,7 +147,8 @@ def grammar_case(tier, seed, index, spec=None):
     cls = G.CLASSES[index % len(G.CLASSES)]
     if spec is None:
         forced = [rng.choice(G.FORCED), rng.choice(['nt-without-rules', 'unreachable-nt', 'plain'])]
-        spec = G.gen_spec(rng, cls, forced, allow_inf=False) if index % 7 != 3 else G.gen_private_dependency_spec(rng, wdomain='real')
+        spec = (G.gen_private_dependency_spec(rng, wdomain='real') if index % 7 == 3 else
+                G.gen_sibling_dependency_spec(rng) if index % 7 == 5 else G.gen_spec(rng, cls, forced, allow_inf=False))
         if index % 3 == 1:
             # a nonterminal that is only declared: no rule, on no right-hand side
             lab = rng.choice(sorted(spec['domains']))
@@ -210,6 +211,12 @@ def grammar_case(tier, seed, index, spec=None):
             for n in outs:
                 if n in solved:
                     viols.append(C.viol('solved-twice' + tag, f'{n} solved twice; trace={trace}'))
+            for n in outs:
+                # members of one solver call may depend on each other only mutually (one strongly connected component):
+                # a nonterminal solved in the same step as one it depends on one-way is not computed "after" it
+                oneway = [m for m in dep[n] if m in outs and m != n and n not in dep[m]]
+                if oneway:
+                    viols.append(C.viol('solved-together-with-one-way-dependency' + tag, f'{n} is solved in the same call as {oneway}, which it depends on but which do not depend on it; trace={trace}'))
             for n in outs:
                 need = {m for m in dep[n] if m not in outs}
                 if not need <= solved:
